@@ -18,7 +18,7 @@ PROP = "c02"
 RULE = (
     "(a) every table of n_face rows, each row any sequence of 3..W distinct nodes out of n_node (all rotations, both "
     "orientations, all padding layouts), at exact width and padded width; (b) catalogue meshes + every non-empty face "
-    "subset (<= 8 faces) under node relabelling / face order / start corner deviations <= k, the input table given C-ordered, Fortran-ordered, as a strided view and read-only; (c) all 5! first-access "
+    "subset (<= 8 faces) under node relabelling / face order / start corner deviations <= k, the input table given C-ordered, Fortran-ordered, as a strided view and read-only; (b2) every non-empty face subset obtained as a sub-grid through Grid.isel (parent plain, with derived edges, with a source-supplied edge table in its own numbering); (c) all 5! first-access "
     "orders of {n_edge, edge_node_connectivity, face_edge_connectivity, n_nodes_per_face, n_max_face_edges}. "
     "non-trivial = table with >= 2 faces sharing a node, or mixed sizes, or padding present; distinct = table content"
 )
@@ -81,6 +81,9 @@ def cases(tier):
         out.append({"kind": "mesh", "mesh": name, "k": kk})
         if m.n_face <= (7 if tier == "quick" else 9) and m.n_face > 1:
             out.append({"kind": "subsets", "mesh": name})
+    for name in (["cube", "cubesplit", "pyr4", "mixedpatch"] if tier == "quick" else ["cube", "cubesplit", "pyr4", "mixedpatch", "prism", "tetra", "pyr6", "octa"]):
+        if cat[name].n_face <= 8:
+            out.append({"kind": "isel", "mesh": name})
     for name in (["cubesplit", "mixedpatch", "single5", "pyr5"] if tier == "quick" else ["cubesplit", "mixedpatch", "single5", "pyr5", "tetra", "amstrip", "isolated", "pyr8"]):
         out.append({"kind": "orders", "mesh": name})
     return out
@@ -184,6 +187,49 @@ def run_case(case):
                 _check(m.faces, m.width, m.n_node, closed, res, {"kind": "subsets", "mesh": case["mesh"], "only": ids, "compact": compact}, lo, la)
         res["axes"] = {"subsets_of": {case["mesh"]: res["evaluations"]}}
         res["sample"] = {"kind": "subsets", "mesh": case["mesh"], "faces": ids}
+        return res
+    if kind == "isel":
+        # the same face subsets, obtained as sub-grids of the parent through Grid.isel (a sub-grid is a grid: its derived edge
+        # tables must describe the boundary segments of ITS faces), with the parent's edges derived before the selection or not,
+        # and with an edge table supplied by the source in its own (reversed) numbering
+        import uxarray as ux
+
+        F = mesh.n_face
+        keys = sorted(conn.edge_model(mesh.faces), key=lambda k: sorted(k))
+        en_sup = np.array([sorted(k) for k in reversed(keys)], dtype=np.intp)
+        for mask in range(1, 2 ** F):
+            ids = [i for i in range(F) if mask >> i & 1]
+            for parent in ("plain", "edges-derived", "edges-supplied"):
+                foc = {"ids": ids, "parent": parent}
+                if "only" in case and foc != case["only"]:
+                    continue
+                focus = {"kind": "isel", "mesh": case["mesh"], "only": foc}
+                try:
+                    if parent == "edges-supplied":
+                        g0 = ux.Grid.from_topology(lon.copy(), lat.copy(), mesh.table(), fill_value=FILL, edge_node_connectivity=en_sup.copy())
+                    else:
+                        g0 = mkgrid(mesh.faces, mesh.width, mesh.n_node, lon, lat)
+                    if parent == "edges-derived":
+                        g0.edge_node_connectivity
+                        g0.face_edge_connectivity
+                    R = g0.isel(n_face=ids)
+                    tab = np.asarray(R._ds["face_node_connectivity"].values)
+                    rfaces = [tuple(int(i) for i in row if i != FILL) for row in tab]
+                    rn = int(R._ds.sizes["n_node"])
+                except Exception as e:
+                    res["violations"].append({"oracle": "construct", "sig": "c02:isel:construct:%s" % type(e).__name__, "msg": "isel(n_face=%s) on %s (%s) raised %r" % (ids, case["mesh"], parent, e), "focus": focus})
+                    continue
+                v = conn.check_c02(R, rfaces, rn, tab.shape[1], mesh.closed and len(ids) == F)
+                res["evaluations"] += 1
+                res["transitions"] += len(OBS)
+                key = digest(("isel", case["mesh"], ids, parent))
+                res["states"].append(key)
+                if _nontrivial(rfaces, tab.shape[1]):
+                    res["nontrivial"].append(key)
+                for it in v.items:
+                    res["violations"].append(dict(it, sig=it["sig"].replace("c02:", "c02:isel:", 1), msg="sub-grid isel(n_face=%s) of %s (parent %s): %s" % (ids, case["mesh"], parent, it["msg"]), focus=focus))
+        res["axes"] = {"isel_subsets_of": {case["mesh"]: res["evaluations"]}}
+        res["sample"] = {"kind": "isel", "mesh": case["mesh"]}
         return res
     if kind == "orders":
         ref = None
